@@ -1,22 +1,22 @@
 from common import WORLD_TB, WORLD_ASSUME, SCEN_RULE
 
 PROP = {
-    "suites": ["scn-fault", "scn-mixed"],
-    "lean_modules": ["Lc.Props.C10"],
+    "suites": ["scn-fault", "scn-faultx", "scn-mixed", "c10-stage"],
+    "lean_modules": ["Lc.Props.C10", "Lc.Props.C10Stage"],
     "leanchecker": True,
     "trusted_base": WORLD_TB + [
         "fault injection through the verif hook fs.verifPoint (one fault point per fs.Mkdir/WriteTextFile/Symlink/Rename/Remove/Mount/Unmount and per open/write of TextOutputFileCursor)",
     ],
     "assumptions": WORLD_ASSUME + [
         "an operation fails only as a whole (no partial write within one write(2))",
-        "stagemaker half of C10 (write errors at byte offset k) is covered by suite c10-stage when enabled; see level_note",
+        "stagemaker half: the output limit is imposed with a file-size limit in 512-byte blocks (ulimit -f: 0, 1, 2, 3, 5, 8, ... and the exact boundary blocks-1 / blocks) and with /dev/full; offsets inside a block are not sampled; the model abstracts the output as a sequence of writes (any sequence: theorem emit_ok_iff)",
     ],
-    "rule": SCEN_RULE + " C10 oracle: in every step with fault:k, if the implementation passed at least k fault points (the k-th operation failed) its result class must not be ok.",
+    "rule": SCEN_RULE + " scn-faultx: for a scenario step, EVERY fault position k from 1 to the number of fault points the undisturbed step passes (+1). c10-stage: real stagemaker -generate (uncompressed and through gzip) and -list runs on generated build roots with a limited output. C10 oracle: in every step with fault:k, if the implementation passed at least k fault points (the k-th operation failed) its result class must not be ok; a stagemaker run that exits 0 must have produced the complete output.",
 }
 
 META = {
     "text": "Lean theorems success_means_fault_not_reached / fault_reached_means_failure: for every command, state and every k, if the k-th mutating operation fails the command model does not return success (invariant 'fault not yet fired' preserved by every function of the model on normal return; the cursor's deferred error flag is part of the invariant). Tied to the Go code by fault injection at the same hook points in differential scenario runs; the oracle judges the implementation's own result class against the number of fault points it passed.",
     "design_ref": "§4 C10",
-    "note": "Trusted: Lean kernel, environment models, harness, the verif fault hook. layercake half only is proved; the stagemaker clause (write error at any byte offset) is checked differentially (see DESIGN.md §4 C10) and not by a theorem.",
+    "note": "Trusted: Lean kernel, environment models, harness, the verif fault hook. stagemaker half: theorems emit_ok_iff / emit_ok_complete / short_output_fails over an abstract sequence of writes (Lc/Model/OutFault.lean), tied to the real binary by limited-output runs; archive/tar and the compressors are not modelled.",
     "technique": "Lean 4 proof (Hoare-style invariant over the command model, all fault positions) + fault-injection correspondence",
 }
